@@ -53,6 +53,7 @@ func main() {
 		quiet  = flag.Bool("q", false, "with -pathsum: counts only")
 		dmode  = flag.String("mode", "", "with -pathsum: 'load' summarises singleflight callees, 'getnode' the filtered lookups")
 		dpre   = flag.String("preset", "", "with -pathsum: name=value,... preset parameters")
+		dbase  = flag.String("dump-baseline", "", "write the function baseline (names, signatures, callees) of -repo to this file")
 	)
 	flag.Parse()
 	if *tier == "" {
@@ -73,6 +74,18 @@ func main() {
 		sort.Strings(ids)
 		for _, id := range ids {
 			fmt.Println(id, len(registry[id].rules), "rule groups")
+		}
+		return
+	}
+	if *dbase != "" {
+		P, err := LoadProgram(*repo, *goarch, false)
+		if err != nil {
+			fmt.Fprintln(os.Stderr, err)
+			os.Exit(2)
+		}
+		if err := dumpBaseline(P, *dbase); err != nil {
+			fmt.Fprintln(os.Stderr, err)
+			os.Exit(2)
 		}
 		return
 	}
